@@ -1,5 +1,5 @@
 """Property -> rules table.  Rules are functions (ctx, repo)."""
-from .rules import ndim, iface, wrappers, rng, mech, errmodels, popmodels, switch, copies, cursors, reduced, layout, noise, filters, caches, problems
+from .rules import ndim, iface, wrappers, rng, mech, errmodels, popmodels, switch, copies, cursors, reduced, layout, noise, filters, caches, problems, dosing
 
 PROPS = {}
 
@@ -177,6 +177,29 @@ prop('C08',
                  'per name, release on None and collapse to None, so the '
                  'state is a function of the name-value set; that a change '
                  'of the free set re-requests enabled sensitivities.')
+
+prop('C10',
+     [dosing.r10_1, dosing.r10_2, dosing.r10_5, mech.r11_1, problems.r14_3,
+      problems.r14_4],
+     undecided=['count and boundary arithmetic of the regimen table over '
+                'run-time floats (int(final_time // period), doses exactly '
+                'at final_time)', 'cumulative drug input (ODE solver)'],
+     assumptions=COMMON_ASSUME + [
+         'myokit.pacing.blocktrain(period, duration, offset, level, limit) '
+         'and myokit.ProtocolEvent(level, start, duration) semantics'],
+     technique='def-use role mapping of the regimen arguments, term lifting '
+               'of the myokit expression constructors, control-dependence '
+               'rule on the dose multiplier, protocol re-attachment '
+               'typestate, row provenance of dataset dose rows',
+     explanation='Decides that a regimen (dose, start, duration, period, '
+                 'num) becomes blocktrain(level = dose/duration over the '
+                 'same duration, offset = start, limit = num); that the '
+                 'model surgery builds dA_d/dt = -k_a A_d and dA/dt = RHS + '
+                 'k_a A_d resp. RHS + rate bound to pace; that a rebuilt '
+                 'simulator keeps the protocol; that the regimen table '
+                 'reports level*duration and uses a finite multiplier as it '
+                 'is; that dataset dose rows reach their own individual\'s '
+                 'protocol row by row.')
 
 prop('C11',
      [mech.r11_1, mech.r11_2, mech.r11_5, copies.r11_3, copies.r11_6,
